@@ -182,7 +182,11 @@ func (w *world) originTable() (tab, gz, dh string) {
 	}
 	q := gal.Str
 	for _, r := range w.revs {
-		add(&t, "i"+r.b32, gal.Pair(fmt.Sprintf("(PIndex %s %s)", q(idir), q(r.b32)), contentOf(r.index)))
+		// the index revision under the name every ETag style gives it
+		for _, st := range etagStyles {
+			_, b32 := stemOf(r.hdrs[st])
+			add(&t, "i"+b32, gal.Pair(fmt.Sprintf("(PIndex %s %s)", q(idir), q(b32)), contentOf(r.index)))
+		}
 		for _, b := range r.repo.Built[arch] {
 			pd := pdirOf(b)
 			ch, dhx := hex.EncodeToString(b.ControlSHA1), hex.EncodeToString(b.DataSHA256)
